@@ -153,6 +153,8 @@ for _w in ['ada_is_valid', 'ada_get_href', 'ada_get_username', 'ada_get_password
            'ada_get_components', 'ada_string_create', 'ada_copy', 'ada_free', 'ada_get_origin', 'ada_free_owned_string', 'ada_parse', 'ada_parse_with_base',
            'ada_can_parse', 'ada_can_parse_with_base']:
     F(_w, _w)
+F('parse_agg', 'ada::parse', mangled=r'_ZN3ada5parseINS_14url_aggregatorEEE.*', targs='ada::url_aggregator')
+F('parse_url', 'ada::parse', mangled=r'_ZN3ada5parseINS_3urlEEE.*', targs='ada::url')
 F('agg_get_origin', A + 'get_origin', cls='agg', mangled=r'_ZNK3ada14url_aggregator10get_originB5cxx11Ev')
 
 # ---- ada::url members (twins of the aggregator's)
